@@ -2097,6 +2097,15 @@ class Sym:
                     return [("variant", self.name(inner), "in", tuple(self.variant_names(tyname, rest_)))]
             return [("variant", self.name(inner), rel, tuple(self.variant_names(tyname, vs)))]
         tr = truth_of(rel, vals) if is_bool else None
+        if tr is None and len(vals) == 1 and ds[0] == "bin" and ds[1] in ("BitAnd", "BitOr", "BitXor", "Shr", "Shl"):
+            # `match x & m { 0 => .., _ => .. }`: the same test as `(x & m) == 0` / `!= 0` (bit-level atoms)
+            v0 = next(iter(vals))
+            if isinstance(v0, int) and not isinstance(v0, bool):
+                bv_ = self.ev.bv(ds)
+                cty_ = "u%d" % bv_.width if bv_ is not None and bv_.width in (8, 16, 32, 64, 128) else "u64"
+                ba = self.bool_atoms(("bin", "Eq", ds, ("const", v0, cty_)), rel == "in")
+                if ba is not None:
+                    return ba
         if tr is None:
             # integer switch: value (not) in a set of constants
             p = self.poly(ds)
@@ -2115,6 +2124,12 @@ class Sym:
         while d[0] == "un" and d[1] == "Not":
             d = strip(d[2])
             tr = not tr
+        if d[0] == "bin" and d[1] in ("BitAnd", "BitOr", "BitXor", "Shr", "Shl") and len(d) == 4:
+            # an integer used as a switch discriminant (`match x & m { 0 => .., _ => .. }`): "true" means non-zero
+            ops_ = [strip(d[2]), strip(d[3])]
+            if any(o_[0] == "const" and len(o_) > 2 and isinstance(o_[2], str) and o_[2][:1] in "ui" and o_[2] != "usize_bool" for o_ in ops_):
+                cty_ = [o_[2] for o_ in ops_ if o_[0] == "const" and len(o_) > 2][0]
+                return self.bool_atoms(("bin", "Ne", d, ("const", 0, cty_)), tr)
         fl = self.is_float_cmp(d)
         if fl:
             c = as_cmp(d, True)
